@@ -8,7 +8,7 @@ import ast
 import re
 
 from .. import regexlang as rx
-from ..astutil import call_attr, calls_in, guard_facts, names_in, unparse, walk_local
+from ..astutil import call_attr, dispatch_tables, calls_in, guard_facts, names_in, unparse, walk_local
 from ..cfg import CFG
 from ..dataflow import resolved_text
 from ..report import Finding, Report
@@ -546,9 +546,15 @@ def check_locations(idx: Index, rep: Report) -> None:
     # parser branches
     branches: dict[str, str] = {}
     plcfg = CFG(pl.node)
+    for _subj, tbl_, _dflt, _n in dispatch_tables(pl.node):  # `match identifier:` or the same dispatch as an if-chain
+        for key_, body_ in tbl_.items():
+            try:
+                kv = ast.literal_eval(key_)
+            except (ValueError, SyntaxError):
+                continue
+            if isinstance(kv, str):
+                branches[kv] = "\n".join(unparse(s) for s in body_)
     for n in walk_local(pl.node):
-        if isinstance(n, ast.match_case) and isinstance(n.pattern, ast.MatchValue) and isinstance(n.pattern.value, ast.Constant):
-            branches[n.pattern.value.value] = "\n".join(unparse(s) for s in n.body)
         if isinstance(n, ast.If):
             tt = resolved_text(plcfg, n.test)  # the test with locals replaced by what they hold (`x = self.parse_...(); if x is not None`)
             if "parse_optional_str_literal" in tt:
